@@ -93,6 +93,13 @@ NonLeaf(n, k, callee, ly) ==
            I("sw s0, " \o s0 \o "(sp)", n \o ":save-s0"), I("mv s0, a0", n \o ":def-s0"), I("addi a0, a0, 1", n \o ":before-call"),
            I("call " \o callee, n \o ":call"), I("add a0, a0, s0", n \o ":after-call"), I("lw s0, " \o s0 \o "(sp)", n \o ":restore-s0"),
            I("lw ra, " \o ra \o "(sp)", n \o ":restore-ra"), I("addi sp, sp, " \o fs, n \o ":free"), I("ret", n \o ":ret") >>
+    [] k = "choose" ->   \* after the call two paths: one sets and uses a temporary of its own, the longer one does not touch it
+        << L(n \o ":", n \o ":label"), I("addi sp, sp, -" \o fs, n \o ":first"), I("sw ra, " \o ra \o "(sp)", n \o ":save-ra"),
+           I("sw s0, " \o s0 \o "(sp)", n \o ":save-s0"), I("mv s0, a0", n \o ":def-s0"), I("addi a0, a0, 1", n \o ":before-call"),
+           I("call " \o callee, n \o ":call"), I("beqz a0, " \o n \o "_other", ""), I("li t1, 3", ""), I("add a0, a0, t1", ""),
+           I("j " \o n \o "_done", n \o ":jump"), L(n \o "_other:", ""), I("addi a0, a0, 1", ""), I("addi a0, a0, 2", ""), I("slli a0, a0, 1", ""),
+           L(n \o "_done:", ""), I("add a0, a0, s0", n \o ":after-call"), I("lw s0, " \o s0 \o "(sp)", n \o ":restore-s0"),
+           I("lw ra, " \o ra \o "(sp)", n \o ":restore-ra"), I("addi sp, sp, " \o fs, n \o ":free"), I("ret", n \o ":ret") >>
     [] k = "rec" ->      \* recursive: f(n) = n = 0 ? 1 : n * f(n - 1)
         << L(n \o ":", n \o ":label"), I("addi sp, sp, -" \o fs, n \o ":first"), I("sw ra, " \o ra \o "(sp)", n \o ":save-ra"),
            I("sw s0, " \o s0 \o "(sp)", n \o ":save-s0"), I("mv s0, a0", n \o ":def-s0"), I("beqz a0, " \o n \o "_base", ""),
@@ -253,9 +260,9 @@ FirstLabelLine(p, i) == IF i > 1 /\ IsLabelLine(p[i - 1]) THEN FirstLabelLine(p,
 MainSeqs == IF Cover THEN [1..2 -> (1..2) \X {2, 4}] ELSE UNION { [1..n -> (1..3) \X {2, 4}] : n \in 1..3 }
 Init == phase = "start" /\ f1 = "" /\ f2 = "" /\ f3 = "" /\ lay = <<16, 12, 8, 4>> /\ mainseq = <<>> /\ inj = <<"", "", 1>> /\ extra = "none"
 PickFns == /\ phase = "start"
-           /\ \E a \in Leaves \ {"print"}, b \in {"wrap", "rec", "twice", "loadmax"}, c \in Leaves \cup {"none"}, ly \in Layouts :
+           /\ \E a \in Leaves \ {"print"}, b \in {"wrap", "rec", "twice", "loadmax", "choose"}, c \in Leaves \cup {"none"}, ly \in Layouts :
                 \* the callee F1 must have the arity its caller F2 passes
-                /\ (b \in {"wrap", "twice"} => Arity(a) = 1)
+                /\ (b \in {"wrap", "twice", "choose"} => Arity(a) = 1)
                 /\ (b = "loadmax" => Arity(a) = 2)
                 /\ (Cover => c = "none" /\ ly = <<16, 12, 8, 4>>)
                 /\ f1' = a /\ f2' = b /\ f3' = c /\ lay' = ly
